@@ -622,6 +622,14 @@ class ProgGen:
 		self.count(f'generic-deep:{len(combos)}-instances:{len(attrs)}-attrs')
 		return out, body
 
+	@staticmethod
+	def _ancestry(parent_of: dict[str, Any], c: str) -> list[str]:
+		out = []
+		while parent_of.get(c) is not None:
+			c = parent_of[c]
+			out.append(c)
+		return out
+
 	def operator_block(self) -> tuple[list[str], list[str]]:
 		"""User classes that overload binary operators (OperationTrait.try_operation, traits.py:178-225, incl. the `inherits` loop that
 		accepts an operand of a DERIVED class for a parameter of the base class): a root class declaring two to four operators over its
@@ -630,8 +638,8 @@ class ProgGen:
 		grandchild. Every (left, right) combination of instances is a candidate: CPython dispatches on the LEFT operand's class (no
 		reflected method of the operand's class is declared for class operands), so the result type is the return type of the nearest
 		declaration above the left operand. Results are used again (attribute, chain, list literal).
-		A RIGHT operand two levels below the parameter class is typed through the operand's own method (known finding
-		operator-operand-indirect-subclass, proposed/C03-operator-operand-indirect-subclass.md): low rate, result unused.
+		Operand classes up to five levels below the parameter class (the former finding operator-operand-indirect-subclass, repaired in
+		435b7a5: the operand's whole ancestry is compared) and parameter classes in the middle of a chain are ordinary forms.
 		Returns (definitions, body lines of the entry function)."""
 		rng = self.rng
 		out: list[str] = []
@@ -655,8 +663,12 @@ class ProgGen:
 		ret: dict[tuple[str, str], str] = {(root, d): root for d in ops}     # (class, dunder) -> class returned by the nearest declaration
 		parent_of = {root: None}
 		classes = [root]
-		for ci in range(rng.randint(1, 3)):
-			par = rng.choice([c for c in classes if depth[c] < 2])
+		# mostly one chain three to five levels deep below the root (an operand far below the parameter class: try_operation compares the
+		# operand's whole ancestry, nearest first — 435b7a5), plus siblings anywhere
+		chain_len = rng.randint(3, 5) if rng.random() < 0.6 else 0
+		n_cls = max(chain_len, 0) + rng.randint(1, 2)
+		for ci in range(n_cls):
+			par = classes[-1] if ci < chain_len else rng.choice([c for c in classes if depth[c] < 5])
 			cls = self.fresh('S')
 			over = [d for d in ops if rng.random() < 0.5] if rng.random() < 0.7 else []
 			if ci == 0 and not over:
@@ -672,6 +684,27 @@ class ProgGen:
 			depth[cls] = depth[par] + 1
 			parent_of[cls] = par  # type: ignore[assignment]
 			classes.append(cls)
+		# a parameter class in the MIDDLE of a chain: a class one or two levels below the root declares a further operator over ITS class;
+		# the classes below it are operands (and receivers), one of them may override it
+		mid_ops: dict[str, tuple[str, list[str]]] = {}
+		mids = [c for c in classes if 1 <= depth[c] <= 2 and any(parent_of[x] == c for x in classes)]
+		spare = [x for x in tokens if x not in ops and (scalar is None or x != scalar[0])]
+		if mids and spare and rng.random() < 0.7:
+			mcls, dm = rng.choice(mids), rng.choice(spare)
+			below = [c for c in classes if c == mcls or mcls in self._ancestry(parent_of, c)]
+			out_idx = out.index(f'class {mcls}({parent_of[mcls]}):')
+			out[out_idx + 1:out_idx + 1] = [f"\tdef {dm}(self, other: '{mcls}') -> '{mcls}':", f'\t\treturn {mcls}(self.v - other.v)', '']
+			for c in below:
+				ret[(c, dm)] = mcls
+			deep = [c for c in below if depth[c] >= depth[mcls] + 2]
+			if deep and rng.random() < 0.5:
+				ocls = rng.choice(deep)
+				o_idx = out.index(f'class {ocls}({parent_of[ocls]}):')
+				out[o_idx + 1:o_idx + 1] = [f"\tdef {dm}(self, other: '{mcls}') -> '{ocls}':", f'\t\treturn {ocls}(self.v)', '']
+				for c in below:
+					if c == ocls or ocls in self._ancestry(parent_of, c):
+						ret[(c, dm)] = ocls
+			mid_ops[dm] = (mcls, below)
 
 		def decl(expr: str) -> str:
 			v = self.fresh('v')
@@ -679,20 +712,20 @@ class ProgGen:
 			return v
 
 		inst = {c: decl(f'{c}({rng.randint(1, 9)})') for c in classes}
-		pairs = [(l, r, d) for l in classes for r in classes for d in ops]
+		pairs = [(l, r, d) for l in classes for r in classes for d in ops] + [(l, r, dm) for dm, (_, below) in mid_ops.items() for l in below for r in below]
 		rng.shuffle(pairs)
-		# first the combinations in which the two operands' classes answer the operator DIFFERENTLY (the left one decides), then any
-		pairs.sort(key=lambda lrd: ret[(lrd[0], lrd[2])] == ret[(lrd[1], lrd[2])] or depth[lrd[1]] >= 2)
-		n_diff = sum(1 for l, r, d in pairs if ret[(l, d)] != ret[(r, d)] and depth[r] < 2)
-		pairs = pairs[:min(n_diff, 4)] + rng.sample(pairs[min(n_diff, 4):], min(len(pairs) - min(n_diff, 4), rng.randint(3, 6)))
+		# first the combinations in which the two operands' classes answer the operator DIFFERENTLY (the left one decides) — those with the
+		# operand three or more levels below the parameter class first —, then any
+		def far(lrd: tuple[str, str, str]) -> int:
+			return depth[lrd[1]] - (depth[mid_ops[lrd[2]][0]] if lrd[2] in mid_ops else 0)
+		pairs.sort(key=lambda lrd: (ret[(lrd[0], lrd[2])] == ret[(lrd[1], lrd[2])], -min(far(lrd), 3)))
+		n_diff = sum(1 for l, r, d in pairs if ret[(l, d)] != ret[(r, d)])
+		pairs = pairs[:min(n_diff, 5)] + rng.sample(pairs[min(n_diff, 5):], min(len(pairs) - min(n_diff, 5), rng.randint(2, 4)))
 		made: list[tuple[str, str]] = []    # (variable, class)
 		for l, r, d in pairs:
 			e = f'{inst[l]} {tokens[d]} {inst[r]}'
-			if depth[r] >= 2:
-				if rng.random() < (0.2 if self.known_rate is None else self.known_rate):
-					decl(e)      # known finding: the result is not used again
-					self.count('operator-operand-indirect-subclass')
-				continue
+			if far((l, r, d)) >= 3:
+				self.count('operator:operand-3-or-more-levels-below')
 			x = decl(e)
 			made.append((x, ret[(l, d)]))
 			u = rng.random()
@@ -703,7 +736,7 @@ class ProgGen:
 			elif u < 0.75:
 				# a chain: the second step dispatches on the result class of the first
 				d2 = rng.choice(ops)
-				r2 = rng.choice([c for c in classes if depth[c] < 2])
+				r2 = rng.choice(classes)
 				if tokens[d2] in '+-' and tokens[d] in '+-' or tokens[d2] in '*/%' and tokens[d] in '*/%' or d2 == d:
 					y = decl(f'{e} {tokens[d2]} {inst[r2]}')
 				else:
